@@ -98,7 +98,8 @@ class BUser(BaseException):
 
 
 CATALOGUE = {
-    'Exception': lambda: Exception('x'), 'ValueError': lambda: ValueError(), 'KeyError': lambda: KeyError('k'),
+    'Exception': lambda: Exception('x'), 'ValueError': lambda: ValueError(), 'KeyError': lambda: KeyError('k'), 'IndexError': lambda: IndexError('i'),
+    'TypeError': lambda: TypeError('t'),
     'Os2': lambda: OSError(2, 'nf'), 'Os3': lambda: OSError(2, 'nf', 'fn'),
     'Uni5': lambda: UnicodeDecodeError('utf8', b'x', 0, 1, 'r'),
     'UAttr': lambda: UAttr('m', extra=9), 'UKw': lambda: UKw(code=4), 'UDbl': lambda: UDbl(3),
@@ -195,6 +196,11 @@ class Plain:
     pass
 
 
+class MethTarget:
+    def meth(self, v):
+        return v
+
+
 class RaisingIter:
     """iterator object (its own iterator) that raises at its k-th next()"""
     def __init__(self, k, raiser):
@@ -265,6 +271,16 @@ class World:
                 spec = self.P(top, spec, self.log)
             elif inner == 'pathget':
                 spec, target = 'p', PropTarget(raiser)
+                top = self.n - 1
+                spec = self.P(top, spec, self.log)
+            elif inner == 'targ':
+                v = ctxs[-1]['v']
+                if v == 'idx_spec':
+                    spec, target = T['data'][Spec(raiser)], {'data': {'k': 1}}
+                elif v == 'idx_invoke':
+                    spec, target = T['data'][Invoke(raiser)], {'data': {'k': 1}}
+                else:
+                    spec, target = T.meth(Spec(raiser)), MethTarget()
                 top = self.n - 1
                 spec = self.P(top, spec, self.log)
             elif inner == 'geniter':
